@@ -252,6 +252,47 @@ def r05h(ctx, rep, rule="R05h"):
                      "wrong frames and operands" % (f.short, src), [t.get("loc") or f.span])
 
 
+def r05j(ctx, rep, rule="R05j"):
+    """library procedures that call back into user code build their results without mutation"""
+    from . import prelude as P
+    rep.rule(rule, "re-entry does not reach into results already returned: map and for-each call their procedure argument, which can "
+             "capture a continuation and be re-entered after the call has returned; their definitions in the prelude therefore "
+             "build results with cons only — no set-car!, set-cdr!, vector-set!, string-set! or set! of a variable shared "
+             "between iterations. A loop that appends with set-cdr! to its `last cell` lets a re-entered iteration rewrite the "
+             "list an earlier return already handed out (R7RS 6.10: map must not be affected by re-entry).")
+    try:
+        macros, forms, path = P.load_macros(ctx["root"])
+    except (OSError, IndexError):
+        rep.anchor_lost(rule, "prelude.scm")
+        return
+    MUT = ("set-car!", "set-cdr!", "vector-set!", "string-set!", "vector-fill!", "string-fill!")
+    for name in ("map", "for-each", "map1"):
+        d = None
+        for fm in forms:
+            if isinstance(fm, list) and len(fm) >= 3 and fm[0] == "define" and isinstance(fm[1], list) and fm[1] and fm[1][0] == name:
+                d = fm
+        if d is None:
+            rep.anchor_lost(rule, "definition of %s in prelude.scm" % name)
+            continue
+        found = []
+
+        def walk(x):
+            if isinstance(x, list) and x:
+                if isinstance(x[0], P.Sym) and str(x[0]) in MUT:
+                    found.append(str(x[0]))
+                if x[0] == "quote":
+                    return
+                for y in x:
+                    walk(y)
+        walk(d[2:])
+        key = "%s|%s" % (rule, name)
+        if found:
+            rep.fail(rule, key, "the prelude's %s mutates the structure it builds (%s): a continuation captured in the procedure "
+                     "argument and re-entered after %s returned rewrites the result of the earlier return" % (name, ", ".join(sorted(set(found))), name))
+        else:
+            rep.ok(rule, key, "%s builds its result without mutators" % name)
+
+
 def run(ctx, rep):
     r05a(ctx, rep)
     r05b(ctx, rep)
@@ -261,6 +302,19 @@ def run(ctx, rep):
                          "one invoked in operand position")
     r05e(ctx, rep)
     r05g(ctx, rep)
+    r05j(ctx, rep)
+    # R05i: nothing but the sweeper frees a cell (a captured continuation refers to environments the running code has left)
+    from . import C03 as _C03
+    sub = type(rep)(rep.prop)
+    _C03.r03a(ctx, sub)
+    rep.rule("R05i", "environments a continuation refers to are not released early: C03's R03a (no function in the extent of an "
+             "instruction reaches the collector, and Heap::free is called by the sweeper only) re-checked here — a RET that "
+             "returns the activation's environment to the free list is sound without continuations and frees what a captured k "
+             "will resume in.")
+    for o in sub.obs:
+        o.rule = "R05i"
+        o.key = o.key.replace("R03a", "R05i", 1)
+        rep.obs.append(o)
     r05h(ctx, rep)
     from . import runloop
     runloop.r_stack_monotone(ctx, rep, "R05f")
